@@ -143,8 +143,15 @@ func genProgram(seed int64, flavour string, drained bool, writers int, ntx int) 
 				}
 				window = own[lo : lo+3]
 			}
+			var perm []int
+			if n >= 100 {
+				perm = r.Perm(len(window)) // hundreds of DISTINCT keys
+			}
 			for j := 0; j < n; j++ {
 				k := window[r.Intn(len(window))]
+				if perm != nil {
+					k = window[perm[j%len(perm)]]
+				}
 				if r.Intn(5) == 0 {
 					t.Writes[k] = delMark
 				} else {
@@ -1072,7 +1079,7 @@ func genCrash(focus, tier string, seed int64) []core.Case {
 			add(2, spec{"multikey", 1, 1, 22, 8, 1})
 			add(1, spec{"bigtxn", 1, 1, 14, 8, 1})
 			add(1, spec{"deep", 1, 1, 36, 8, 1})
-			add(1, spec{"manykeys", 1, 1, 3, 8, 2})
+			add(1, spec{"manykeys", 1, 1, 3, 8, 1})
 			add(1, spec{"multikey", 0, 1, 22, 8, 2})
 			add(1, spec{"multikey", 0, 2, 12, 8, 2})
 		} else {
